@@ -7,39 +7,43 @@ from nqlib import Check, run_pipeline, parse_driver_output, standard_verdict, dr
 
 PROP = "C14"
 HARNESS = "harness/c14_bounce.c"
-RULE = ("the real qmail-send.c stripvdomprepend()/addbounce()/del_dochan()/getcontrols()/injectbounce() (ASan+UBSan build of the working "
+RULE = ("the real qmail-send.c rewrite()/stripvdomprepend()/addbounce()/del_dochan()/getcontrols()/injectbounce() (ASan+UBSan build of the working "
         "tree, in-memory file system and captured qmail-queue interface) against the Lean model Nq.Bounce: (P) every failure report over "
         "{LF,x,<,>,:,0x80} up to length %s and every recipient over {LF,a,b,@,-,.} up to length %s against a virtualdomains file with exact, "
         "wildcard, catch-all, domain-exception, virtual-user (user@domain, also with a dash in the prepend), mixed-case entries and an exception entry "
-        "for one whole address, once without and "
-        "once with a locals file that overlaps it, plus a recipient x report x write-behaviour (short writes, ENOSPC, open failure) matrix "
+        "for one whole address, once without and once with a locals file that overlaps it, each in three modes: as a local-channel record "
+        "(addbounce flagstrip 1), as a remote-channel record (flagstrip 0), and as an ORIGINAL address routed by the real rewrite() whose channel and stored form addbounce then gets; "
+        "plus a recipient x report x write-behaviour (short writes, ENOSPC, open failure) x mode matrix "
         "under four locals/virtualdomains pairs, compared on the bytes appended to bounce/<id>; (I) every sender form (ordinary, empty, #@[], VERP "
         "-@[] variants, quoted, 8-bit, LF-bearing) x which of me/bouncefrom/bouncehost/doublebounceto/doublebouncehost/virtualdomains/locals exist, "
+        "every failing recipient an original address routed by the real rewrite(), "
         "and every failure point of injectbounce (info, stat, qmail_open, bounce/mess open and read, qmail_close, unlink) followed by a "
         "retry, compared on return value, envelope, full notice text, log and whether bounce/<id> remains; (C) the chain message -> bounce "
-        "-> double bounce -> discard with every generated message failing; (D) spawner reports through del_dochan (status D/Z/K/other, "
-        "dying or not, lengths around REPORTMAX, read chunkings); plus seeded random cases of all four kinds (reports up to 12 KB) and the corpus "
-        "corpus/C14.txt. Oracle on the implementation's output, its tables and the double-bounce address computed on the spec side from the raw "
-        "control-file bytes (specVdoms/specLocals/specDoubleBounceTo, not the model's getcontrols): exactly one paragraph per failed recipient starting with its <address>: line (address = the recipient "
-        "with the prefix undone as rewrite() applied it: none for a locals domain, none for a recipient with an exception entry of its own, else virtual-user cut, else governing domain entry), blank line only at "
-        "the end, report text shown up to LF->/, original message a suffix of the notice, envelope rules, chain length <= 2, bounce file removed only after queueing, no second "
-        "notice after success; non-trivial = distinct case with a prefix removed or kept by the locals/virtual-user rules, an LF-bearing recipient, a report with an empty line, a "
-        "queued/failed injection, a non-empty chain or a recorded bounce")
+        "-> double bounce -> discard with every generated message failing; (D) spawner reports through del_dochan on both channels (status D/Z/K/other, "
+        "dying or not, lengths around REPORTMAX, read chunkings); (Q) a second binary linking the REAL qmail.c: injectbounce() -> qmail_open() forks and execs a scripted queue program "
+        "(harness/c07_qq.c: records what it is given, then exits with each of 16 codes or dies by SIGKILL/SIGTERM/SIGSEGV/SIGABRT), then a retry with a well-behaved one; "
+        "plus seeded random cases of all five kinds (reports up to 12 KB) and the corpora "
+        "corpus/C14.txt, corpus/C14-qq.txt. Oracle on the implementation's output, its tables and the double-bounce address computed on the spec side from the raw "
+        "control-file bytes (specVdoms/specLocals/specDoubleBounceTo, not the model's getcontrols): exactly one paragraph per failed recipient starting with its <address>: line (address = "
+        "the stored recipient as it is on the remote channel; on the local channel the prefix undone as rewrite() applied it: none for a locals domain, else virtual-user cut, else governing domain entry), "
+        "END TO END for original addresses: the paragraph names the address as routed by C10's model of rewrite() whenever the non-ambiguity hypothesis of C14_bounce_names_routed_address holds "
+        "(always on the remote channel; the real routing is compared with that model too), blank line only at "
+        "the end, report text shown up to LF->/, original message a suffix of the notice, envelope rules, chain length <= 2, bounce file removed only after queueing "
+        "(Q: only if the queue program exited 0 without a signal; after a refusal the retry delivers exactly the notice), no second "
+        "notice after success; non-trivial = distinct case with a stored form differing from the given or named address, a locals-domain record, an LF-bearing recipient, a report with an empty line, a "
+        "queued/failed injection, a non-empty chain, a recorded bounce or a Q case")
 ARGS = {"quick": "7 6 6000", "thorough": "9 7 60000"}
-ASSUME = ["qmail-queue is replaced by a capture of the qmail_open/put/from/to/close calls (qmail.c's own discipline is C07; qmail-queue's is C01)",
+ASSUME = ["in the P/I/C/D legs qmail.c is replaced by a capture of the qmail_open/put/from/to/close calls; the Q leg links the real qmail.c in front of a scripted queue program (qmail.c's full discipline is C07; qmail-queue's is C01)",
           "the queue directory is an in-memory file system behind open_read/open_append/open_write/read/write/close/stat/fstat/unlink; "
           "sleep() returns at once, time() is fixed (the Date: line is compared for that instant)",
           "strings taken from the envelope, the control files and the spawner contain no NUL byte (they are C strings in the real program)",
           "daemon-level scheduling of injectbounce (messdone, retry after SLEEP_SYSFAIL, crash windows) belongs to the Daemon model (C03/C04); the daemon-level "
           "replay of drv_c14 is a SYNTHETIC life: arrival, preprocessing, delivery commands, reports and marks are fabricated set-up events, only appendBounce / "
           "bounceInject / unlinkBounce carry bytes and outcomes of the real addbounce()/injectbounce()",
-          "which variant of stripvdomprepend() the model transcribes (with or without the whole-recipient exception lookup of notes/C14-fix-3.diff) is read from "
-          "qmail-send.c by tools/extractors/c14.py (Nq.Gen.stripWholeFirst); theorems are proved for both variants, the oracle is the same strict rule for both",
-          "open finding C14-strip-exception: a failing recipient that has an exception entry of its own (user@domain: with an empty prepend) next to a "
-          "virtualdomains entry for its domain is named with the domain's prefix removed; the oracle is strict there, exactly these cases carry the tag "
-          "known=C14-strip-exception and are reported as KNOWN-FINDING once the entry is in known_findings.json (VIOLATION until then, or until the patch is applied)"]
-NAME = ("Nq.Bounce (stripvdom, addbounceText, delReport, getcontrols, inject/bounceOf) vs qmail-send.c "
-        "stripvdomprepend()/addbounce()/del_dochan()/getcontrols()/injectbounce()")
+          "the Q leg uses real fork/exec/pipes/waitpid of the host and C07's scripted stand-in for qmail-queue; 'committed' is what the script says (exit 0, no signal)",
+          "routing of original addresses: envnoathost = control/me's first line or the literal (no control/envnoathost, no control/percenthack in these cases)"]
+NAME = ("Nq.Bounce (stripvdom, nameOf, addbounceText, delReport, getcontrols, inject/bounceOf) vs qmail-send.c "
+        "stripvdomprepend()/addbounce()/del_dochan()/getcontrols()/injectbounce() (+ qmail.c qmail_open/qmail_close in the Q leg)")
 PREFIXES = ("P", "I", "C", "D")   # the focused search runs on the first binary; Q cases are replayed with --replay
 
 
